@@ -106,6 +106,18 @@ M = [
         Ok((''', 'the last error gate before Ok is removed'),
     ('C10-direct-write', 'C10', 'C10.R2', 'compiler/pavexc/src/compiler/generated_app.rs',
      '        fs_err::create_dir_all(&source_directory)?;', '        fs_err::create_dir_all(&source_directory)?;\n        fs_err::write(source_directory.join(".pavex"), b"generated")?;', 'a marker file is written unconditionally (mtime changes on every run, also in --check)'),
+    ('C11-removal-cookie-only-for-new-sessions', 'C11', 'C11.R5', 'runtime/sessions/pavex_session/src/session_.rs',
+     '''            if self.id.old_id().is_none() {
+                // This is a new session, so there's nothing on the client-side
+                // to be removed.
+                return Ok(None);''',
+     '''            if self.id.old_id().is_some() {
+                // This is a new session, so there's nothing on the client-side
+                // to be removed.
+                return Ok(None);''', 'the removal cookie is skipped exactly when the client has a cookie'),
+    ('C11-id-not-advanced-after-rename', 'C11', 'C11.R5', 'runtime/sessions/pavex_session/src/session_.rs',
+     '''        if matches!(self.server_state.get(), None | Some(Unchanged { .. })) {''',
+     '''        if matches!(self.server_state.get(), Some(Unchanged { .. })) {''', 'a rename of a never-loaded session is repeated by the next sync'),
     ('C09-silent-error', 'C09', 'C09.R1', 'compiler/pavexc/src/compiler/analyses/user_components/router.rs',
      '        if has_errored { Err(()) } else { Ok(()) }', '        if has_errored || router.at("/").is_ok() { Err(()) } else { Ok(()) }', 'detect_domain_conflicts can fail without pushing a diagnostic'),
 ]
